@@ -535,14 +535,23 @@ def fini_toplevel(
         targets = []
         for param in ctx.env.query_params:
             pgparam = ctx.argmap[param.name]
-            if pgparam.index in used or param.sub_params:
-                continue
-            targets.append(pgast.ResTarget(val=pgast.TypeCast(
-                arg=pgast.ParamRef(number=pgparam.index),
-                type_name=pgast.TypeName(
-                    name=pg_types.pg_type_from_ir_typeref(param.ir_type)
-                )
-            )))
+            if not (pgparam.index in used or param.sub_params):
+                targets.append(pgast.ResTarget(val=pgast.TypeCast(
+                    arg=pgast.ParamRef(number=pgparam.index),
+                    type_name=pgast.TypeName(
+                        name=pg_types.pg_type_from_ir_typeref(param.ir_type)
+                    )
+                )))
+            if isinstance(param, irast.Global) and param.has_present_arg:
+                # The "present" flag of a global with a default is a
+                # separate parameter in the argument map; it needs to
+                # appear in the statement as well.
+                present = ctx.argmap[param.name + "present__"]
+                if present.index not in used:
+                    targets.append(pgast.ResTarget(val=pgast.TypeCast(
+                        arg=pgast.ParamRef(number=present.index),
+                        type_name=pgast.TypeName(name=('bool',)),
+                    )))
         if targets:
             stmt.append_cte(
                 pgast.CommonTableExpr(
